@@ -731,6 +731,8 @@ def parse_file(src, module):
     q = (module + "::") if module else ""
     res = {"consts": {}, "structs": {}, "enums": {}, "fns": {}, "aliases": {}}
     impl_stack = []      # (type name, brace depth marker)
+    impl_suffix = []     # per impl: "" or "::<trait argument>" (impl TryFrom<u32> for Month)
+    item_macros = {}     # name -> (var, body tokens) for  ($($t:ty),* $(,)?) => { $( BODY )* }
 
     def skip_item_block():
         while not p.at("{") and not p.at(";"):
@@ -871,27 +873,73 @@ def parse_file(src, module):
                     toks_.append(p.next())
                 k_ = toks_.index("for")
                 tname = "".join(toks_[k_ + 1:])
-                if re.match(r"^[\w:]+$", tname) and "<" not in "".join(toks_):
+                head_ = "".join(toks_[1:k_])
+                m_ = re.match(r"^[\w:]+(?:<([\w:]+)>)?$", head_)
+                if re.match(r"^[\w:]+$", tname) and m_:
                     impl_stack.append(q + tname.split("::")[-1] if "::" not in tname else tname)
+                    impl_suffix.append(("::" + m_.group(1)) if m_.group(1) else "")
                     p.eat("{")
                 else:
                     p.skip_balanced("{", "}")
             else:
                 p.next()
                 impl_stack.append(q + p.next())
+                impl_suffix.append("")
                 p.eat("{")
         elif v == "}" and impl_stack:
             p.next()
             impl_stack.pop()
+            impl_suffix.pop()
         elif v == "macro_rules!":
-            while not p.at("{"):
-                p.next()
+            p.next()
+            mname = p.next()
+            start_ = p.i
             p.skip_balanced("{", "}")
+            body_ = toks[start_ + 1:p.i - 1]
+            txt_ = " ".join(t[1] for t in body_[:24])
+            m_ = re.match(r"^\( \$ \( \$ (\w+) : ty \) , \* (?:\$ \( , \) \? )?\) => \{ \$ \(", txt_)
+            if m_ and body_[-1][1] == "}" and body_[-2][1] == "*" and body_[-3][1] == ")":
+                # tokens between `$(` and `)*` of the transcriber
+                j_ = 0
+                while not (body_[j_][1] == "=>"):
+                    j_ += 1
+                inner_ = body_[j_ + 4:-3]
+                item_macros[mname] = (m_.group(1), inner_)
+        elif k == "id" and v.endswith("!") and v[:-1] in item_macros and not impl_stack:
+            var_, inner_ = item_macros[v[:-1]]
+            p.next()
+            open_ = p.next()
+            close_ = {"(": ")", "[": "]", "{": "}"}[open_]
+            args_ = [[]]
+            while not p.at(close_):
+                t_ = p.t[p.i]
+                p.i += 1
+                if t_[1] == ",":
+                    args_.append([])
+                else:
+                    args_[-1].append(t_)
+            p.next()
+            if p.at(";"):
+                p.next()
+            expanded = []
+            for a_ in args_:
+                if not a_:
+                    continue
+                j_ = 0
+                while j_ < len(inner_):
+                    if inner_[j_][1] == "$" and inner_[j_][0] == "op" and j_ + 1 < len(inner_) and inner_[j_ + 1][1] == var_:
+                        expanded += a_
+                        j_ += 2
+                    else:
+                        expanded.append(inner_[j_])
+                        j_ += 1
+            p.t[p.i:p.i] = expanded
+            toks = p.t
         elif v == "fn":
             p.next()
             name = p.next()
             owner = impl_stack[-1] if impl_stack else None
-            key = (owner + "::" + name) if owner else (q + name)
+            key = (owner + "::" + name + impl_suffix[-1]) if owner else (q + name)
             if p.at("<"):
                 skip_item_block()
                 res["fns"][key] = {"error": "generic function"}
